@@ -16,7 +16,9 @@ Every arithmetic / comparison expression is GENERATED from the current source
             new_scan_range = newRange
             start = newStart;  stop = newStop;  if snake: swap
             step = stepNum / stepDen;  next_pos = start
-    if peak_position is not None: mv(motor, peak_position)       -- final park
+    if peak_position is not None:
+        peak_position = parkPos(peak_position, low_limit, high_limit)   -- clamp into the original limits
+        mv(motor, peak_position)                                      -- final park
 
 Assumption of the model: the motor's read-back equals the position it was last set to.
 Python raises ZeroDivisionError for `num == 1` (stepDen = 0); the model reports that as `zeroDiv`.
@@ -49,7 +51,8 @@ structure St where
 deriving DecidableEq
 
 /-- where the generator is: still looping, or finished -- by leaving the loop (then the motor is parked
-    at `park` when a peak position was ever computed) or by the `return` on an all-zero pass -/
+    at `park` = the clamped last centroid, when a centroid was ever computed) or by the `return` on an
+    all-zero pass -/
 inductive Phase where
   | run (s : St)
   | exited (park : Option Rat)
@@ -98,8 +101,11 @@ def body (P : Params) (I : Resp) (s : St) : Phase :=
   else if zeroGuard (sumI' I s) (sumXI' I s) then .returned
   else .run (recentre P I s)
 
+/-- the statements after the loop: where the motor is finally parked (if at all) -/
+def park (P : Params) (s : St) : Option Rat := s.peak.map (fun pk => parkPos pk P.low P.high)
+
 def iter (P : Params) (I : Resp) : Phase → Phase
-  | .run s => if live P s then body P I s else .exited s.peak
+  | .run s => if live P s then body P I s else .exited (park P s)
   | ph => ph
 
 /-- phase after `n` trips round the loop (finished phases are absorbing) -/
@@ -143,7 +149,7 @@ structure Row where
 
 /-- rows of the first `fuel` iterations, the final phase, and the margin of the exit test -/
 def trace (P : Params) (I : Resp) : Nat → St → List Row → List Row × Phase × Rat
-  | 0, s, acc => (acc.reverse, if live P s then .run s else .exited s.peak, margin P I s)
+  | 0, s, acc => (acc.reverse, if live P s then .run s else .exited (park P s), margin P I s)
   | fuel + 1, s, acc =>
     if live P s then
       let m := margin P I s
@@ -152,6 +158,6 @@ def trace (P : Params) (I : Resp) : Nat → St → List Row → List Row × Phas
         let kind := if inRange s.start s.stop (nextUpd s.nextPos s.step) then 0 else 1
         trace P I fuel s' ({ pos := s.nextPos, kind := kind, margin := m } :: acc)
       | ph => (({ pos := s.nextPos, kind := 2, margin := m } :: acc).reverse, ph, 1)
-    else (acc.reverse, .exited s.peak, margin P I s)
+    else (acc.reverse, .exited (park P s), margin P I s)
 
 end BlueskyVerif.Pure.Tune
